@@ -26,7 +26,7 @@ import z3
 
 from .pyvals import (NONE, Exc, IntSeq, NoneVal, PAbs, PyCache, PyCallable, PyConst, PyGen, PyKey, PyList, PyLit, PyMap, PyObj,
                      PyOpt, PyStrSet, PyTuple, StrSeq, Tok, TokSeq, Val, ValSeq, clone, fresh, is_bool, is_int, is_seq, is_str,
-                     is_tok, is_val, is_z3, same_obj, tok_fields, truthy)
+                     is_tok, is_val, is_z3, same_obj_z3, tok_fields, truthy)
 
 
 class Unsupported(Exception):
@@ -167,8 +167,10 @@ def eq(a, b):
                 return a == z3.If(b, 1, 0)
             return z3.BoolVal(False)
         return a == b
+    if isinstance(a, PyObj) and isinstance(b, PyObj):
+        return same_obj_z3(a, b)
     if isinstance(a, (PyObj, PyConst, PyCallable)) or isinstance(b, (PyObj, PyConst, PyCallable)):
-        return z3.BoolVal(same_obj(a, b) or (isinstance(a, PyConst) and isinstance(b, PyConst) and a.name == b.name))
+        return z3.BoolVal(a is b or (isinstance(a, PyConst) and isinstance(b, PyConst) and a.name == b.name))
     raise Unsupported(f"== between {type(a).__name__} and {type(b).__name__}")
 
 
